@@ -20,7 +20,7 @@ import random
 import time
 
 from .. import bounded, common, spec
-from ..common import PROVED, REFUTED, UNDECIDED, Report, res, run_pool
+from ..common import PROVED, REFUTED, UNDECIDED, Report, res, run_pool  # noqa
 
 HOLES = ["a", "b", "c", "d"]
 
@@ -308,6 +308,160 @@ def job_lists(a):
     return [dict(name="lchunk", status="x", strength="aux", backend="truth-table", secs=0, fails=fails, counts=counts, source=source)]
 
 
+# ---- structural induction STEP, proved per rule and top-level pattern (pyvc, modular over the contract of visit) ------------------
+
+def induct_patterns():
+    """(method name, constructor source over the hole names) - every node kind with arity 1..4 over opaque children, plus the patterns whose
+    side conditions the rules test (equal / negated / symbol / compound children)."""
+    H = ["h0", "h1", "h2", "h3"]
+    kids = ["h0", "h1", "Not(h0)", "Not(h1)", "And(h2, h3)", "Or(h2, h3)", "Xor(h2, h3)", "Not(Or(h0, h1))", "Not(And(h0, h1))", "Not(Xor(h1, h2))"]
+    pats = []
+    for op, m in (("And", "visit_And"), ("Or", "visit_Or"), ("Xor", "visit_Xor")):
+        for ar in (2, 3, 4):
+            pats.append((m, f"{op}({', '.join(H[:ar])})"))
+        for x in kids:
+            for y in kids:
+                if x != y:
+                    pats.append((m, f"{op}({x}, {y})"))
+        pats.append((m, f"{op}(And(h0, h1), Not(h0), h2)"))
+    # the or2xor pattern and its near misses: Or(And(p, q), And(r, s)) with every equal / negated combination, and 3-literal conjunctions
+    lits = ["h0", "h1", "Not(h0)", "Not(h1)", "h2"]
+    for p_ in lits:
+        for q_ in lits:
+            for r_ in lits:
+                for s_ in lits:
+                    if p_ != q_ and r_ != s_:
+                        pats.append(("visit_Or", f"Or(And({p_}, {q_}), And({r_}, {s_}))"))
+    pats += [("visit_Or", "Or(And(h0, h1, h2), And(Not(h0), Not(h1), Not(h2)))"), ("visit_Or", "Or(And(h0, h1), And(Not(h0), Not(h1)), h2)"),
+             ("visit_Or", "Or(And(h0, Or(h1, h2)), And(Not(h0), Not(Or(h1, h2))))")]
+    for x in kids + ["Not(Not(h0))", "Not(And(h0, h1))", "true", "false"]:
+        pats.append(("visit_Not", f"Not({x}, evaluate=False)"))
+    for c in ("h0", "Not(h0)", "And(h0, h1)"):
+        for t in ("h1", "Not(h1)", "Or(h2, h3)", "true"):
+            for e in ("h2", "Not(h1)", "h1", "false"):
+                pats.append(("visit_ITE", f"ITE({c}, {t}, {e}, evaluate=False)"))
+                pats.append(("visit_Implies", f"Implies({c}, {t}, evaluate=False)"))
+    seen, out = set(), []
+    for p_ in pats:
+        if p_ not in seen:
+            seen.add(p_)
+            out.append(p_)
+    return out
+
+
+def native_replay_induct(T, src):
+    """Replay of a refuted induction step on the REAL code: the pattern over plain symbols, the real recursive visit, all assignments."""
+    import sympy
+    from sympy.logic import boolalg
+    ns = dict(And=boolalg.And, Or=boolalg.Or, Not=boolalg.Not, Xor=boolalg.Xor, ITE=boolalg.ITE, Implies=boolalg.Implies, true=sympy.true, false=sympy.false)
+    syms = [sympy.Symbol(f"h{i}") for i in range(4)]
+    ns.update({f"h{i}": syms[i] for i in range(4)})
+    try:
+        e = eval(src, {}, ns)
+        got = T().visit(e)
+        for r in range(16):
+            env = {syms[i]: bool((r >> i) & 1) for i in range(4)}
+            a, b = bool(e.xreplace(env)), bool(sympy.sympify(got).xreplace(env))
+            if a != b:
+                return dict(replayed=True, replay=dict(transformer=T.__name__, expression=str(e), visit_returns=str(got), assignment={str(k): v for k, v in env.items()},
+                                                      value_before=a, value_after=b))
+        return dict(replayed=False, native=f"{T.__name__}().visit({e}) = {got} is equivalent on all 16 assignments")
+    except Exception as ex:  # noqa
+        return dict(replayed=False, native=f"native run raises {type(ex).__name__}: {ex}"[:200])
+
+
+def job_induct(a):
+    """One rule (transformer class x visit_<Kind>) on its patterns.  The recursive call self.visit(x) is REPLACED BY ITS CONTRACT (a fresh opaque
+    formula with the denotation of x), so each discharged obligation is the induction step 'sub-terms correct => node correct' for ARBITRARY
+    sub-terms: together they give den(visit(e)) = den(e) for trees of every depth (arity <= 4, top-level patterns as enumerated)."""
+    import sympy
+    import z3
+    from sympy.logic import boolalg
+    from qlasskit.boolopt import SympyTransformer
+    from .. import pyvc
+    tname, lo, hi, mode = a
+    T = {t.__name__: t for t in transformers()}[tname] if tname != "SympyTransformer" else SympyTransformer
+    ns = dict(And=boolalg.And, Or=boolalg.Or, Not=boolalg.Not, Xor=boolalg.Xor, ITE=boolalg.ITE, Implies=boolalg.Implies, true=sympy.true, false=sympy.false)
+    for i in range(4):
+        ns[f"h{i}"] = sympy.Symbol(f"h{i}") if mode == "symbol" else pyvc.Hole(sympy.Symbol(f"k{i}"))
+    out = []
+    fails = {}
+    counts = {}
+    if lo == 0:
+        # the dispatcher itself, against the contracts of the visit_<Kind> methods: every node kind reaches a method whose contract preserves the
+        # denotation, or is returned unchanged
+        key = f"{tname}.visit[dispatch; sub-terms: {'symbols' if mode == 'symbol' else 'opaque trees'}]"
+        for src in ("And(h0, h1)", "Or(h0, h1, h2)", "Not(h0)", "Xor(h0, h1)", "ITE(h0, h1, h2, evaluate=False)", "Implies(h0, h1, evaluate=False)", "h0", "true", "false",
+                    "Not(And(h0, h1))", "And(Or(h0, h1), Not(h2))"):
+            e = eval(src, {}, dict(ns))
+            eng = pyvc.Engine(modular=True)
+            eng.opaque_symbols = False
+
+            def mk_kind_contract(k_):
+                def kind_contract(vc, f, args, kwargs):
+                    fresh = pyvc.SymExpr(z3.Bool(vc.fresh_name("kind")))
+                    if type(args[0]) is ns[k_]:          # requires: the node is of the method's kind (else nothing is promised)
+                        vc.assumed.append(fresh.z == pyvc.den(args[0]))
+                    return fresh
+                return kind_contract
+            for k_ in ("And", "Or", "Not", "Xor", "ITE", "Implies"):
+                eng.contracts[getattr(T, "visit_" + k_)] = mk_kind_contract(k_)
+            counts[key] = counts.get(key, 0) + 1
+            try:
+                for p_ in eng.explore(lambda vc: (T().visit, [e], {})):
+                    if p_.kind != "return":
+                        fails.setdefault(key, dict(pattern=src, observed=f"raises {type(p_.value).__name__}: {p_.value}"[:200]))
+                        continue
+                    st, model, secs, backend = pyvc.solve(p_.hyps(), pyvc.den(p_.value) == pyvc.sympy_to_z3(e), 10000)
+                    if st != PROVED:
+                        f = dict(pattern=src, result=str(p_.value)[:200], solver_output=str(model)[:300], undecided=(st != REFUTED))
+                        if st == REFUTED:
+                            f.update(native_replay_induct(T, src))
+                        fails.setdefault(key, f)
+            except pyvc.Unsupported as ex:
+                fails.setdefault(key, dict(pattern=src, observed=f"Unsupported: {ex}", undecided=True))
+    for meth, src in induct_patterns()[lo:hi]:
+        try:
+            e = eval(src, {}, dict(ns))
+        except Exception:  # noqa - sympy refuses the construction
+            continue
+        kind = meth[len("visit_"):]
+        if type(e).__name__ != kind:
+            continue          # sympy's own evaluation turned the pattern into another node kind: covered under that kind
+        eng = pyvc.Engine(modular=True)
+        eng.opaque_symbols = False
+
+        def visit_contract(vc, f, args, kwargs):
+            x = args[0]
+            fresh = pyvc.SymExpr(z3.Bool(vc.fresh_name("visit")))
+            vc.assumed.append(fresh.z == pyvc.den(x))
+            return fresh
+        eng.contracts[SympyTransformer.visit] = visit_contract
+        key = f"{tname}.{meth}[sub-terms: {'symbols' if mode == 'symbol' else 'opaque trees'}]"
+        counts[key] = counts.get(key, 0) + 1
+        try:
+            paths = eng.explore(lambda vc: (getattr(T(), meth), [e], {}))
+        except pyvc.Unsupported as ex:
+            fails.setdefault(key, dict(pattern=src, observed=f"Unsupported: {ex}", undecided=True))
+            continue
+        for p_ in paths:
+            if p_.kind != "return":
+                fails.setdefault(key, dict(pattern=src, observed=f"raises {type(p_.value).__name__}: {p_.value}"[:200]))
+                continue
+            try:
+                got = pyvc.den(p_.value)
+            except pyvc.Unsupported as ex:
+                fails.setdefault(key, dict(pattern=src, observed=f"result is not a formula: {ex}"))
+                continue
+            st, model, secs, backend = pyvc.solve(p_.hyps(), got == pyvc.sympy_to_z3(e), 10000)
+            if st != PROVED:
+                f = dict(pattern=src, result=str(p_.value)[:200], solver_output=str(model)[:300], undecided=(st != REFUTED))
+                if st == REFUTED:
+                    f.update(native_replay_induct(T, src))
+                fails.setdefault(key, f)
+    return [dict(name="ichunk", status="x", strength="aux", backend="z3", secs=0, fails=fails, counts=counts)]
+
+
 def _dispatch(j):
     f, a = j
     return f(a)
@@ -327,7 +481,29 @@ def run(tier, only=None):
     nprog = len([1 for o, s in family(tier, seed=0) if o != "outside"])
     for lo in range(0, nprog, 25):
         jobs.append((job_lists, (lo, min(nprog, lo + 25), tier, "front-end")))
+    npat = len(induct_patterns())
+    for T in [t.__name__ for t in transformers()] + ["SympyTransformer"]:
+        for lo in range(0, npat, 120):
+            for mode in ("symbol", "hole"):
+                jobs.append((job_induct, (T, lo, lo + 120, mode)))
     rs = run_pool(_dispatch, jobs)
+    # proved-class: induction steps
+    iagg, icnt = {}, {}
+    for r in rs:
+        if r.get("name") == "ichunk":
+            for k, v in r["counts"].items():
+                icnt[k] = icnt.get(k, 0) + v
+            for k, v in r["fails"].items():
+                iagg.setdefault(k, v)
+    for k in sorted(icnt):
+        name = f"C04.{k}.induction-step[den preserved given the contract of visit on the sub-terms]"
+        if k in iagg:
+            f = iagg[k]
+            rep.add([res(name, UNDECIDED if f.get("undecided") else REFUTED, strength="proved-class", backend="z3", replayed=bool(f.get("replayed")), patterns=icnt[k],
+                         replay=f.get("replay"), detail=str({k2: v for k2, v in f.items() if k2 != "replay"})[:600], solver_output=f.get("solver_output"))])
+        else:
+            rep.add([res(name, PROVED, strength="proved-class", backend="z3", patterns=icnt[k])])
+    rs = [r for r in rs if r.get("name") != "ichunk"]
     agg, cnt, fired, diag = {}, {}, {}, {}
     for r in rs:
         if r.get("name") in ("chunk", "lchunk"):
